@@ -717,7 +717,10 @@ func (m *machine) absorbCommits(srv *pgfake.Server, sh *shadowDB, track bool) (f
 		after := m.status(sh)
 		when := fmt.Sprintf("after committed transaction %d of this Sync", i+1)
 		if !touched[m.k.status.name] {
-			return &failure{m.k.name + ":events-without-position", when + ": event rows changed in a transaction that does not write the sync position"}, rollbacks, advances
+			if fail == nil {
+				fail = &failure{m.k.name + ":events-without-position", when + ": event rows changed in a transaction that does not write the sync position"}
+			}
+			continue
 		}
 		switch {
 		case before.ok && after.ok && after.number < before.number || (before.ok && after.ok && after.number == before.number && len(after.hash) == 0 && len(before.hash) != 0):
@@ -1217,17 +1220,17 @@ func c15Assumptions() {
 func TestC15_RegistryWalk(t *testing.T) {
 	recC15.AddRule(c15Rule)
 	c15Assumptions()
-	runRapid(t, N(140, 3000), func(rt *rapid.T) { runC15History(rt, kindRegistry, 30) })
+	runRapid(t, N(200, 12000), func(rt *rapid.T) { runC15History(rt, kindRegistry, 30) })
 }
 
 func TestC15_SequencerWalk(t *testing.T) {
 	recC15.AddRule(c15Rule)
 	c15Assumptions()
-	runRapid(t, N(140, 3000), func(rt *rapid.T) { runC15History(rt, kindSequencer, 30) })
+	runRapid(t, N(200, 12000), func(rt *rapid.T) { runC15History(rt, kindSequencer, 30) })
 }
 
 func TestC15_MultiEventWalk(t *testing.T) {
 	recC15.AddRule(c15Rule)
 	c15Assumptions()
-	runRapid(t, N(140, 3000), func(rt *rapid.T) { runC15History(rt, kindMulti, 30) })
+	runRapid(t, N(200, 12000), func(rt *rapid.T) { runC15History(rt, kindMulti, 30) })
 }
